@@ -74,10 +74,32 @@ def deref_elem(self, v, elty):
 # -- symbolic dicts -----------------------------------------------------------------------------------------------------
 
 def symdict_value(self, d: PDict, kt):
+    if d.objmap is not None:
+        for k0, obj in d.objmap:
+            if self.path.branch(kt == k0):
+                return obj
+        obj = self.make_symbolic(d.template, f"{d.name}[]")
+        d.objmap.append((kt, obj))
+        if d.where:
+            env = dict(self.spec_env)
+            env.update(k=self.wrap(kt, d.kty), v=obj)
+            self.assume(self.eval_spec_expr(d.where, env, total=True))
+        return obj
     return self.wrap(z3.Select(d.mp, kt), d.vty)
 
 
 def symdict_store(self, d: PDict, kt, val):
+    if d.objmap is not None:
+        if d.size is not None:
+            sz = self.to_z3(d.size, "int")
+            d.size = self.wrap(z3.If(z3.Select(d.dom, kt), sz, sz + 1), "int")
+        d.dom = z3.Store(d.dom, kt, z3.BoolVal(True))
+        keep = []
+        for k0, obj in d.objmap:
+            if not self.path.branch(kt == k0):
+                keep.append((k0, obj))
+        d.objmap = [(kt, val), *keep]
+        return
     if d.size is not None:
         sz = self.to_z3(d.size, "int")
         d.size = self.wrap(z3.If(z3.Select(d.dom, kt), sz, sz + 1), "int")
@@ -86,6 +108,12 @@ def symdict_store(self, d: PDict, kt, val):
 
 
 def symdict_remove(self, d: PDict, kt):
+    if d.objmap is not None:
+        keep = []
+        for k0, obj in d.objmap:
+            if not self.path.branch(kt == k0):
+                keep.append((k0, obj))
+        d.objmap = keep
     if d.size is not None:
         sz = self.to_z3(d.size, "int")
         d.size = self.wrap(z3.If(z3.Select(d.dom, kt), sz - 1, sz), "int")
